@@ -50,4 +50,24 @@ theorem src_cpcca_fields_use_own_entries :
     Gen.cpccaTransformSources = [("comps1", "self.data['components1']"), ("comps2", "self.data['components2']"),
       ("norm1", "self.data['norm1']"), ("norm2", "self.data['norm2']")] := by decide
 
+/-- the per-mode factors (pseudo-norms, signs) are stored under the labels the modes carry AFTER sorting, so a rotator's
+`transform` must rotate, then reorder, and only then scale; the two scalings commute with each other -/
+def validRotatorOrder (steps : List String) : Bool :=
+  match steps.idxOf? "rotate", steps.idxOf? "reorder", steps.idxOf? "norms", steps.idxOf? "sign" with
+  | some r, some o, some n, some s => decide (r < o ∧ o < n ∧ o < s)
+  | _, _, _, _ => false
+
+theorem src_rotator_transform_order :
+    validRotatorOrder Gen.eofRotatorTransformSteps = true ∧ validRotatorOrder Gen.cpccaRotatorTransformSteps = true := by decide
+
+/-- why the order matters: scaling by `d` (indexed by the new label) after the reorder `σ` is not the same map as scaling before it,
+unless `d` happens to be constant along `σ` -/
+theorem reorder_then_scale (S : Matrix (Fin m) (Fin k) 𝕜) (σ : Fin k → Fin k) (d : Fin k → 𝕜) :
+    (fun i j => S i (σ j) * d j) = (fun i j => (fun i' j' => S i' j' * d j') i (σ j)) ↔ ∀ i j, S i (σ j) * d j = S i (σ j) * d (σ j) := by
+  constructor
+  · intro h i j; exact congrFun (congrFun h i) j
+  · intro h; funext i j; exact h i j
+
+example : validRotatorOrder ["rotate", "sign", "reorder", "norms"] = false := by decide
+
 end C04
